@@ -269,7 +269,7 @@ def simplify(t):
             return ('bin', ARITH_CALLS[ls], args[0], args[1])
         if ls == 'not' and len(args) == 1 and 'std::ops::Not' in name:
             return ('un', 'Not', args[0])
-        if ls in CMP_CALLS and len(args) == 2 and ('PartialEq' in name or 'PartialOrd' in name or 'cmp::' in name):
+        if ls in CMP_CALLS and len(args) == 2 and ('PartialEq' in name or 'PartialOrd' in name or 'cmp::' in name or 'partial_eq' in name):
             return ('bin', CMP_CALLS[ls], args[0], args[1])
         return ('call', name, args) + t[3:]
     if k == 'index':
